@@ -23,8 +23,8 @@ TEXT = {
     "C01": {
         "technique": "property-based testing (rapid): generated Go types-as-data x value sequences x encoder configurations, round-trip oracle through an abstraction of the documented normalisations; shrunk failures kept as regression witnesses; the same generator and oracle under Go's coverage-guided fuzzer (rapid.MakeFuzz) in thorough",
         "design_ref": "DESIGN.md §5 C01, §4.2-4.3",
-        "level_text": "Thousands of generated struct types (reflect.StructOf trees over every supported kind, pointer/collection shape and tag combination, plus a catalogue of named types driven through the real Encoder[T]) with correlated record sequences, all three codecs, block sizes from 0 to larger-than-data and arbitrary flush patterns are written and read back; every delivered record must match what was written under exactly the documented normalisations. Sampled exploration: it finds type shapes and value/configuration combinations the suite never reaches, it does not prove absence. The file is offered through several reader kinds, by value or by pointer into a struct that already holds values, by a consumer that closes banks or keeps them; a separate unit writes one or two records thousands of times (data that compresses by more than 20:1).",
-        "level_note": "Trusts spec.Abs/Match as the statement of the documented normalisations and reflect.StructOf types as stand-ins for anonymous struct types; named types only via the catalogue.",
+        "level_text": "Thousands of generated struct types (reflect.StructOf trees over every supported kind, pointer/collection shape and tag combination, plus a hand-written catalogue of named types and 240 (thorough: 600) named struct types generated as Go source from VERIF_SEED for each run - named nested structs, embedding, unexported fields, defined slice/map/pointer/primitive types - all driven through the real Encoder[T]) with correlated record sequences, all three codecs, block sizes from 0 to larger-than-data and arbitrary flush patterns are written and read back; every delivered record must match what was written under exactly the documented normalisations. Sampled exploration: it finds type shapes and value/configuration combinations the suite never reaches, it does not prove absence. The file is offered through several reader kinds, by value or by pointer into a struct that already holds values, by a consumer that closes banks or keeps them; a separate unit writes one or two records thousands of times (data that compresses by more than 20:1).",
+        "level_note": "Trusts spec.Abs/Match as the statement of the documented normalisations and reflect.StructOf types as stand-ins for anonymous struct types; named types via the hand-written catalogue and the per-run generated one (harness/gencat); recursive and reused named types only via the former.",
     },
     "C02": {
         "technique": "property-based testing (rapid) with a differential oracle: an independent reference Avro container reader and datum decoder written from the 1.8 specification decodes the library's output; the same generator and oracle under Go's coverage-guided fuzzer (rapid.MakeFuzz) in thorough",
@@ -53,8 +53,8 @@ TEXT = {
     "C06": {
         "technique": "structure-aware mutation fuzzing driven by rapid (token spans from the reference decoder), truncation / bit flips / random bytes, evaluated in a worker subprocess with an address-space limit, watchdog and heap-footprint accounting; native coverage-guided fuzz targets in thorough",
         "design_ref": "DESIGN.md §5 C06, §3.4",
-        "level_text": "Single-token hostile replacements of every length / count / size / selector in valid files and record bodies, truncations, bit flips, header variants, arbitrary schema documents against catalogue targets and timestamp text are evaluated out of process: any panic, process death (fatal OOM, stack overflow), missing answer within 20 s (and again within 60 s in a second attempt) or heap growth beyond 32 MiB + 4096 x input + 64 x the bytes its blocks expand to is a violation. Sampled; multi-token malformations only via the thorough tier's fuzz targets. A grid of 1-2 MiB files with one altered length (memory bound 64 MiB + 16 x size) and of records with up to 140000 allocations read twice by a bank-closing consumer is sampled in quick and enumerated in thorough.",
-        "level_note": "The allocation bound is a threshold, not a proof of proportionality. Arrays with zero-width items and zero-width top-level records are excluded (legal amplification).",
+        "level_text": "Single-token hostile replacements of every length / count / size / selector in valid files and record bodies, truncations, bit flips, header variants, arbitrary schema documents against catalogue targets and timestamp text are evaluated out of process: any panic, process death (fatal OOM, stack overflow), missing answer within 20 s (and again within 60 s in a second attempt) heap growth beyond 32 MiB + 4096 x input + 64 x the bytes its blocks expand to, or more than 128 MiB + 4096 x (input + expanded bytes) allocated in total, is a violation. Files whose header schema document has one member altered are read in full, projected and fully skipped; valid files whose arrays arrive in tens of thousands of tiny blocks are read in every run. Sampled; multi-token malformations only via the thorough tier's fuzz targets. A grid of 1-2 MiB files with one altered length (memory bound 64 MiB + 16 x size) and of records with up to 140000 allocations read twice by a bank-closing consumer is sampled in quick and enumerated in thorough.",
+        "level_note": "The allocation bounds are thresholds, not a proof of proportionality. Arrays with zero-width items and zero-width top-level records are excluded (legal amplification).",
     },
     "C07": {
         "technique": "fault enumeration over generated files: every bit of every sync marker / CRC / magic, capped enumeration of compressed payload bits with a computed oracle (reference decompressor), header rewrites, every callback failure index",
@@ -107,7 +107,7 @@ TEXT = {
     "C15": {
         "technique": "property-based testing (rapid): generated Go types-as-data over the full kind universe and tag space, compared with an independent model of the documented mapping; recursive types evaluated in a worker subprocess",
         "design_ref": "DESIGN.md §5 C15, §4.5",
-        "level_text": "Generated struct types (all field kinds incl. unsupported ones, every tag combination, registered types in every position) and a catalogue of named types (reuse, recursion, embedding, unexported fields, odd package path) are passed to SchemaForType; the result must be an error where the type is inexpressible, must equal an independent model of the documented mapping where it is documented, must be deterministic, structurally valid, stable under marshal/parse and usable by Schema.Codec. Self-referential types run in a subprocess with a watchdog so that a stack overflow is a verdict. After the caller has edited the returned schema in place, generating again must give the same schema.",
+        "level_text": "Generated struct types (all field kinds incl. unsupported ones, every tag combination, registered types in every position) a hand-written catalogue of named types (reuse, recursion, embedding, unexported fields, odd package path) and every one of the 240 (thorough: 600) named struct types generated as Go source from VERIF_SEED for the run are passed to SchemaForType; the result must be an error where the type is inexpressible, must equal an independent model of the documented mapping where it is documented, must be deterministic, structurally valid, stable under marshal/parse and usable by Schema.Codec. Self-referential types run in a subprocess with a watchdog so that a stack overflow is a verdict. After the caller has edited the returned schema in place, generating again must give the same schema.",
         "level_note": "Trusts spec.ModelSchema as the reading of the documented mapping; silent on undocumented kinds. One open known finding (KF-C15-1, named struct defined once per occurrence) is waived for exactly that clause.",
     },
     "C16": {
